@@ -673,6 +673,7 @@ def run(tier, seed):
         if first_ok_trace is None and not fails:
             first_ok_trace = tpath
         by_run = None
+        failed_runs = set()
         for fl in fails:
             ev = fl["rec"]
             script = scripts[fl["run"] - 1]
@@ -683,7 +684,14 @@ def run(tier, seed):
                 raise vlib.ToolError("script %d of batch %d reaches a sync point without having delivered the chain: %s"
                                      % (fl["run"], bi, json.dumps(script)[:600]))
             if fl["inv"] == "HistoryWellFormed":
+                cr = fl["run"]
+                while cr > 1 and scripts[cr - 1]["kind"] == "sched":
+                    cr -= 1
+                if cr in failed_runs:      # its canonical run was cut out as a failure: nothing to compare with
+                    failed_runs.add(fl["run"])
+                    continue
                 raise vlib.ToolError("ill-formed history in batch %d run %d" % (bi, fl["run"]))
+            failed_runs.add(fl["run"])
             if by_run is None:
                 by_run = {}
                 for ln in open(tpath):
